@@ -7,7 +7,7 @@ import (
 	"github.com/akrylysov/pogreb/fs"
 )
 
-const vMaxKeys = 40
+const vMaxKeys = 72
 
 type refMap struct {
 	n       int
